@@ -205,6 +205,29 @@ impl GatewayBinder {
         }
     }
 
+    /// concrete text of a (possibly catalogued) string name
+    pub fn text(&self, name: &str) -> String {
+        if let Some(p) = self.inst.get("Strings").and_then(|x| x.get(name)) {
+            let len = p["len"].as_u64().unwrap() as usize;
+            match p["kind"].as_str().unwrap_or("ascii") {
+                "utf8" => "\u{00e9}\u{4e2d}\u{1F600}x".chars().cycle().take(len).collect(),
+                _ => "abcdefghijklmnopqrstuvwxyz0123456789".chars().cycle().take(len).collect(),
+            }
+        } else {
+            name.to_string()
+        }
+    }
+    pub fn text_name(&self, text: &str) -> String {
+        if let Some(m) = self.inst.get("Strings").and_then(|x| x.as_object()) {
+            for k in m.keys() {
+                if self.text(k) == text {
+                    return k.clone();
+                }
+            }
+        }
+        text.to_string()
+    }
+
     pub fn payload_bytes(&self, name: &str) -> Vec<u8> {
         if let Some(p) = self.inst.get("Payloads").and_then(|x| x.get(name)) {
             let len = p["len"].as_u64().unwrap() as usize;
@@ -400,8 +423,8 @@ impl GatewayBinder {
                 let ph = BytesN::<32>::try_from_val(&env, &topics.get(4)?).ok()?;
                 let payload = Bytes::try_from_val(&env, data).ok()?;
                 let pv = bytes_to_vec(&payload);
-                Some(json!({"k": name, "caller": self.cx.name_of(&caller), "chain": sstr_to_string(&chain),
-                    "addr": sstr_to_string(&addr), "payload": self.payload_name(&pv), "ph": self.payload_name_by_hash(&ph.to_array())}))
+                Some(json!({"k": name, "caller": self.cx.name_of(&caller), "chain": self.text_name(&sstr_to_string(&chain)),
+                    "addr": self.text_name(&sstr_to_string(&addr)), "payload": self.payload_name(&pv), "ph": self.payload_name_by_hash(&ph.to_array())}))
             }
             "ownership_transferred" | "operatorship_transferred" => {
                 let p = Address::try_from_val(&env, &topics.get(1)?).ok()?;
@@ -539,8 +562,8 @@ impl GatewayBinder {
             "CallContract" => {
                 let caller_name = jstr(act, "caller");
                 let caller = self.cx.addr(&caller_name);
-                let chain = self.cx.s(act["chain"].as_str().unwrap());
-                let addr = self.cx.s(act["addr"].as_str().unwrap());
+                let chain = self.cx.s(&self.text(act["chain"].as_str().unwrap()));
+                let addr = self.cx.s(&self.text(act["addr"].as_str().unwrap()));
                 let payload = self.cx.bytes(&self.payload_bytes(act["payload"].as_str().unwrap()));
                 let via = act["via"].as_str().unwrap_or("direct");
                 let gw = self.gw.clone().unwrap();
@@ -549,12 +572,12 @@ impl GatewayBinder {
                     let pname = if via == "self" { caller_name.clone() } else { jstr(act, "through") };
                     let probe = self.probes.get(&pname).expect("probe").clone();
                     let args: SVec<Val> = svec![&env, gw.into_val(&env), caller.into_val(&env), chain.into_val(&env), addr.into_val(&env), payload.into_val(&env)];
-                    // authorisations (if any) cover the whole tree probe.gw_call -> gateway.call_contract
+                    // an address's authorisation tree starts at the first call that requires it: gateway.call_contract
                     let inner: SVec<Val> = svec![&env, caller.into_val(&env), chain.into_val(&env), addr.into_val(&env), payload.into_val(&env)];
                     let auths: Vec<(Address, Inv)> = self
                         .auth_list(act)
                         .into_iter()
-                        .map(|a| (a, Inv::new(&probe, "gw_call", args.clone()).with(Inv::new(&gw, "call_contract", inner.clone()))))
+                        .map(|a| (a, Inv::new(&gw, "call_contract", inner.clone())))
                         .collect();
                     self.cx.call_auth(&auths, &probe, "gw_call", args)
                 } else {
